@@ -173,6 +173,11 @@ def lookup_lines(cmp, keys, het_ok=True, riter=True):
                 out.append("%s k=%d het=1" % (op, k))
                 if op in ("find", "lower_bound", "upper_bound", "equal_range"):
                     out.append("%s k=%d het=1 cst=1" % (op, k))
+                # band key {k, k+1}: a heterogeneous key that is equivalent to up to two elements
+                if op != "find":      # which of several equivalent elements find returns is unspecified
+                    out.append("%s k=%d het=2" % (op, k))
+                if op in ("lower_bound", "upper_bound", "equal_range"):
+                    out.append("%s k=%d het=2 cst=1" % (op, k))
     if riter:
         out.append("riter")
         out.append("riter cst=1")
@@ -405,7 +410,9 @@ def generate(tier, seed):
                 if op == "riter":
                     lines.append("riter")
                 else:
-                    het = " het=1" if cmp.startswith("t") and rnd.random() < 0.5 else ""
+                    het = (" het=1" if rnd.random() < 0.6 else " het=2") if cmp.startswith("t") and rnd.random() < 0.5 else ""
+                    if het == " het=2" and op == "find":
+                        het = " het=1"
                     cst = " cst=1" if op in ("find", "lower_bound", "upper_bound", "equal_range") and rnd.random() < 0.5 else ""
                     lines.append("%s k=%d%s%s" % (op, rnd.choice(universe + [universe[-1] + 1]), het, cst))
         add(lines, "random/%s" % kind)
